@@ -219,6 +219,91 @@ def api_ob(vt, kind, tier):
               oracle="R-src dis of %d.%d" % vt if use_src else "arithmetic reference")
 
 
+def api_lines_ob(vt, n, tier):
+    """make_std_api(vt).findlinestarts / starts_line (with the first_line shift) on version-vt code whose line table bytes are symbolic"""
+    from props.common import SymCode
+    from refmodels import lines310 as M310
+    tabs = opc_tables()
+    opc = tabs["opcode_%d%d" % vt]
+    word = vt >= (3, 6)
+    signed = vt >= (3, 6)
+    nop = _pick(opc, ["NOP", "POP_TOP"])
+    ninst = 8
+    params = [("fl", (1, 100000)), ("shift", (0, 5))]
+    for i in range(n):
+        params += [("i%d" % i, (0, 255)), ("d%d" % i, (0, 255))]
+
+    def tbl_of(kw):
+        t = []
+        for i in range(n):
+            t += [kw["i%d" % i], kw["d%d" % i]]
+        return t
+
+    items = [nop, 0] * ninst if word else [nop] * ninst
+    step = 2 if word else 1
+
+    def pre(**kw):
+        t = tbl_of(kw)
+        if vt == (3, 10):
+            if not (t[2 * n - 2] != 0):
+                return False
+            tot = 0
+            for i in range(n):
+                if t[2 * i] % 2:
+                    return False
+                tot = tot + t[2 * i]
+            if not (tot == len(items)):
+                return False
+            for _s, _e, l in M310.ranges(t, kw["fl"]):
+                if l is not None and not (l >= 1):
+                    return False
+            return True
+        tot = 0
+        line = kw["fl"]
+        for i in range(n):
+            tot = tot + t[2 * i]
+            d = t[2 * i + 1]
+            line = line + (d - 256 if (signed and d >= 128) else d)
+            if not (line >= 1):
+                return False
+        return tot < len(items)
+
+    def body(**kw):
+        from xdis.std import make_std_api
+        api = make_std_api(vt)
+        t = tbl_of(kw)
+        fl, shift = kw["fl"], kw["shift"]
+        lnotab = mkbytes(t)
+        fields = dict(co_code=bytes(items), co_firstlineno=fl, co_lnotab=lnotab if vt >= (3, 0) else lnotab)
+        code = make_portable(vt, **fields)
+        got = list(api.findlinestarts(code))
+        if vt == (3, 10):
+            ref = M310.linestarts(t, fl)
+        else:
+            ref_code = SymCode(co_lnotab=lnotab, co_firstlineno=fl, co_code=bytes(items))
+            ref = list(oracles.load_dis27()["findlinestarts"](ref_code)) if vt == (2, 7) else list(oracles.load_dis(vt).findlinestarts(ref_code))
+        ok = len(got) == len(ref)
+        if ok:
+            for (a0, a1), (b0, b1) in zip(got, ref):
+                ok = ok and a0 == b0 and a1 == b1
+        assert ok, "make_std_api(%r).findlinestarts: xdis %r, CPython %r" % (vt, got, ref)
+        with no_text(opc):
+            ins = list(api.get_instructions(code, first_line=fl + shift))
+        assert len(ins) == ninst, "instruction count"
+        for g in ins:
+            want = None
+            for off, line in ref:
+                if off == g.offset:
+                    want = line + shift
+            assert (g.starts_line is None and want is None) or (g.starts_line is not None and want is not None and g.starts_line == want), \
+                "starts_line at %r: xdis %r, line table of CPython %d.%d shifted by first_line gives %r" % (g.offset, g.starts_line, vt[0], vt[1], want)
+
+    return Ob(id="C20.api.%d%d.lines.n%d" % (vt[0], vt[1], n), prop="C20", params=params, body=body, pre=pre, funcs=FUNCS,
+              region="api.%d%d" % vt, skeleton="make_std_api(%d.%d) findlinestarts/starts_line: %d NOPs, line table of %d symbolic pairs" % (vt + (ninst, n)),
+              bound="all table bytes symbolic (lines >= 1, table inside the code); first line 1..10^5; first_line shift 0..5", timeout=90,
+              setup=install_iter_unpack_model, oracle=("R-model lines310 (validated)" if vt == (3, 10) else "R-src dis.findlinestarts of %d.%d" % vt))
+
+
 def kinds_ob():
     def collect():
         import xdis.std as S
@@ -342,6 +427,7 @@ def tables_ob():
 def generate(tier, seed):
     c17._validate(seed)
     oracles.load_dis(HOST)
+    oracles.load_dis27()
     tabs = opc_tables()
     opc = tabs["opcode_%d%d" % HOST]
     obs = [kinds_ob(), tables_ob()]
@@ -354,4 +440,7 @@ def generate(tier, seed):
             oracles.load_dis(vt)
         for kind in ("jrel", "const", "name", "jabs"):
             obs.append(api_ob(vt, kind, tier))
+        if vt <= (3, 10):
+            for n in ((1, 2) if tier == "quick" else (1, 2, 3)):
+                obs.append(api_lines_ob(vt, n, tier))
     return obs
